@@ -1,6 +1,7 @@
 package main
 
 import (
+	"fmt"
 	"math"
 	"strings"
 )
@@ -46,6 +47,15 @@ func (h *HistGen) coll() string { return h.Colls[h.G.pick(len(h.Colls))] }
 func (h *HistGen) newId() string {
 	h.NextId++
 	id := fixedId(h.NextId)
+	// caller-supplied ids in other valid 36-character spellings: hex letters, upper case, mixed case
+	switch h.G.pick(8) {
+	case 0:
+		id = fmt.Sprintf("%08X-ABCD-4EF0-8000-%012X", h.NextId, h.NextId+0xABCDEF)
+	case 1:
+		id = fmt.Sprintf("%08x-abcd-4ef0-8000-%012x", h.NextId, h.NextId+0xabcdef)
+	case 2:
+		id = fmt.Sprintf("%08x-AbCd-4eF0-8000-%012X", h.NextId, h.NextId+0xabcdef)
+	}
 	h.Ids = append(h.Ids, id)
 	return id
 }
